@@ -118,7 +118,20 @@ MisplacedProgs ==
       ds \in {<<>>, <<D("account", "acc"), BalDecl>>, <<D("account", "acc"), KeyDecl>>},
       fn \in {"balance", "meta"}, args \in {<<Acc("a"), AstE(A)>>, <<Acc("a"), Str_("key")>>}}
 
-Progs == IF Scope = "names" THEN NameProgs \cup PosProgs \cup OrderProgs \cup AllotProgs \cup MisplacedProgs ELSE ShapeProgs \cup NameProgs \cup PosProgs \cup OrderProgs \cup AllotProgs \cup MisplacedProgs
+\* ---- two allotments in one statement (whatever the first one leaves behind must not reach the second), and a script
+\*      with more diagnostics than any budget (eighteen unused variables, once with twelve undeclared uses on top)
+Allot2Seqs == [1..2 -> ClauseP]
+TwoAllotProgs == {[vars |-> <<D("portion", "p")>>,
+                   stmts |-> <<Send(FALSE, Mon(20), [k |-> "allot", it |-> [i \in 1..2 |-> [p |-> ps[i], s |-> SrcOfIdx(i)]]],
+                                                   [k |-> "allot", it |-> [i \in 1..2 |-> [p |-> qs[i], to |-> SrcOfIdx(i)]]])>>] : ps \in Allot2Seqs, qs \in Allot2Seqs}
+Names18 == <<"va", "vb", "vc", "vd", "ve", "vf", "vg", "vh", "vi", "vj", "vk", "vl", "vm", "vn", "vo", "vp", "vq", "vr">>
+ManyDiagProgs == {[vars |-> [i \in 1..18 |-> D("number", Names18[i])], stmts |-> <<Send(FALSE, Mon(20), LeafL("a"), Dst)>>],
+                  [vars |-> [i \in 1..18 |-> D("number", Names18[i])],
+                   stmts |-> <<[k |-> "call", name |-> "set_tx_meta", args |-> <<Str_("k"), Inf("+", Inf("+", Inf("+", Var("xa"), Var("xb")), Inf("+", Var("xc"), Var("xd"))), Inf("+", Inf("+", Var("xe"), Var("xf")), Inf("+", Var("xg"), Var("xh"))))>>],
+                               [k |-> "call", name |-> "set_tx_meta", args |-> <<Str_("k"), Inf("+", Inf("+", Var("xi"), Var("xj")), Inf("+", Var("xk"), Var("xl")))>>]>>]}
+
+Progs == IF Scope = "analysis" THEN NameProgs \cup PosProgs \cup OrderProgs \cup AllotProgs \cup MisplacedProgs \cup TwoAllotProgs \cup ManyDiagProgs
+         ELSE IF Scope = "names" THEN NameProgs \cup PosProgs \cup OrderProgs \cup AllotProgs \cup MisplacedProgs ELSE ShapeProgs \cup NameProgs \cup PosProgs \cup OrderProgs \cup AllotProgs \cup MisplacedProgs
 VARIABLES phase, prog
 vars == <<phase, prog>>
 Init == phase = "pick" /\ prog = [vars |-> <<>>, stmts |-> <<>>]
